@@ -13,6 +13,7 @@ from harness import common, gen, b09lex, corpus
 PID = "C11"
 FIXED = [
     ["10 A=1:GOTO 30", "20 B=2", "30 PRINT A;B$"],
+    ["10 PRINT \"PAGE 1\x0cPAGE 2\":REM A\x0bB", "20 DATA X\x1cY,\"Q\x1dR\"", "30 A$=\"\x1e\""],     # characters str.splitlines() would split at
     ["0 A=1", "10 IF A=1 THEN 0 ELSE 20", "20 END"],
     ["10 DIM C(3),D$(2)", "20 C(1)=2:D$(1)=\"X\":E(2)=3:F$(1)=\"Y\"", "30 PRINT C(1);D$(1)"],
     ["10 INPUT \"N\";N$,A", "20 Z$=STR$(A)+N$:PRINT Z$"],
@@ -76,7 +77,7 @@ def main():
             payload.append({"src": "\n".join(lines), "opts": opts_of(v)})
             where.append((pi, v))
     res = common.run_real("w_convert", payload)
-    ncli = len(progs) if thorough else 6
+    ncli = len(progs) if thorough else 7
     clip = [{"src": "\n".join(progs[pi]), "stem": "prog", "flags": flags_of(f)} for pi in range(ncli) for f in V]
     cres = common.run_real("w_cli", clip)
     cases, meta = [], []
